@@ -78,7 +78,7 @@ class P(C07):
                     kinds = [rng.choice(fk)] + [rng.choice(ok + fk + ["unknown-enterprise"]) for _ in range(rng.choice([1, 2, 3]))]
                 else:
                     kinds = [rng.choice(ok + ["unknown"]) for _ in range(rng.choice([1, 2, 3]))] if ok else ["unknown"]
-                p, hdr, samples = sfgen.gen_datagram(rng, kinds=kinds)
+                p, hdr, samples = sfgen.gen_datagram(rng, kinds=kinds, small_header=(filt if rng.random() < 0.5 else None))
                 if len(p) <= 1400:
                     dg.append((bytes([192, 0, 2, rng.randrange(1, 5)]), p, hdr, samples))
             cases.append({"cmd": "pipeline", "proto": "sflow", "workers": 1, "udpsize": 1500, "mirror": False, "ext_elements": [], "pre": [],
